@@ -9,12 +9,14 @@
 (* (a valid image of the records before the end) or "refused"; never "crash" or "hang".                        *)
 EXTENDS Naturals, Sequences, FiniteSets, TLC, Json
 CONSTANTS MaxRec, Emit,
-          ChecksumChecked, PaxLenChecked, SparseCountBounded, SizeFieldValidated, LinkCycleDetected
+          ChecksumChecked, PaxLenChecked, SparseCountBounded, SizeFieldValidated, LinkCycleDetected,
+          Sparse10Validated      \* the GNU 1.0 sparse map in front of the file data (read_sparse_map_new.c) is parsed with every number and the map length checked
 Classes == {"ok", "badchecksum", "badmagic", "size_nonnumeric", "size_huge", "size_negative_b256",
             "pax_len_zero", "pax_len_over", "pax_no_equals", "pax_no_newline", "pax_huge",
             "longname_over_limit", "longname_zero", "sparse_unordered", "sparse_overlap", "sparse_beyond", "sparse_count_mismatch",
             "name_dotdot", "name_empty", "hlink_dangling", "hlink_self", "hlink_cycle", "hlink_to_dir",
-            "dup_name", "file_under_file", "unknown_type"}
+            "dup_name", "file_under_file", "unknown_type",
+            "sp10_count_nonnumeric", "sp10_count_huge", "sp10_entry_nonnumeric", "sp10_map_truncated", "sp10_no_newline", "sp10_number_overflow"}
 Cuts == {"none", "boundary", "in_header", "in_payload"}
 Plan == [recs : UNION {[1..k -> Classes] : k \in 1..MaxRec}, cut : Cuts, cutAt : 1..MaxRec, term : BOOLEAN]
 
@@ -32,6 +34,8 @@ Step(c) ==
     [] c \in {"hlink_dangling", "hlink_self", "hlink_to_dir"} -> "refuse"            \* at link resolution
     [] c = "hlink_cycle" -> IF LinkCycleDetected THEN "refuse" ELSE "hang"
     [] c \in {"dup_name", "file_under_file"} -> "refuse"
+    [] c \in {"sp10_count_nonnumeric", "sp10_count_huge", "sp10_entry_nonnumeric", "sp10_map_truncated", "sp10_no_newline", "sp10_number_overflow"}
+         -> IF Sparse10Validated THEN "refuse" ELSE "crash"
     [] c = "unknown_type" -> "next"                                                     \* skipped with its payload
 RECURSIVE Run(_, _, _)
 Run(p, i, left) ==
